@@ -59,7 +59,7 @@ func (c06) Info() core.Info {
 			"descriptor bodies are compared through the decoders for the decodable kinds; opaque descriptors by tag only (the API exposes no raw body)",
 			"after an injected reader error ReadPMT may return that error or the exact answer; truncation before the last needed packet must give ErrPMTNotFound",
 		},
-		RequiredProbes: []string{"first_packet_payload_le3", "split_inside_header", "split_inside_descriptor", "split_before_crc", "pointer_gt0", "foreign_section_before", "interleaved", "af_len0_stuffing", "multi_packet_ge3", "section_len_ge_1000", "other_pmt_on_other_pid", "trailing_stuffing", "truncated_before_end", "zero_streams", "es_info_length_ge_256", "program_info_length_ge_256", "prelude_unit_on_pmt_pid"},
+		RequiredProbes: []string{"first_packet_payload_le3", "split_inside_header", "split_inside_descriptor", "split_before_crc", "pointer_gt0", "foreign_section_before", "interleaved", "af_len0_stuffing", "multi_packet_ge3", "section_len_ge_1000", "other_pmt_on_other_pid", "trailing_stuffing", "truncated_before_end", "zero_streams", "es_info_length_ge_256", "program_info_length_ge_256", "prelude_unit_on_pmt_pid", "pointer_255", "held_pmt_rechecked"},
 	}
 }
 
@@ -107,7 +107,9 @@ func genWire(r *core.Rand, payloadLen int, pid int) Wire {
 func (c06) Gen(r *core.Rand, tier string) interface{} {
 	s := &C06Script{}
 	s.PMT = genPMT(r, 40)
-	s.Pointer = r.Pick(0, 0, 0, 1, 5, 20, 182, r.Range(0, 182))
+	// up to 182 the first section starts inside the first packet (ISO); larger values are
+	// still a legal payload layout for the library (filler reaching into the next packet)
+	s.Pointer = r.Pick(0, 0, 0, 1, 5, 20, 182, 183, 254, 255, r.Range(0, 182), r.Range(0, 255))
 	for i := r.Pick(0, 0, 0, 1, 2); i > 0; i-- {
 		s.Before = append(s.Before, genForeignSection(r))
 	}
@@ -271,6 +273,9 @@ func (c06) Exec(script interface{}, c *core.Ctx) {
 	c.Log("section %x", pmtSec)
 	if ptr > 0 {
 		c.Probe("pointer_gt0")
+	}
+	if ptr == 255 {
+		c.Probe("pointer_255")
 	}
 	if len(s.Before) > 0 {
 		c.Probe("foreign_section_before")
@@ -556,6 +561,34 @@ func (c06) Exec(script interface{}, c *core.Ctx) {
 	if d := comparePMT(c, pm, s.PMT); d != "" {
 		if d != "panic" {
 			c.Fail("read_stream", "stream:"+clauseOf(d), d, "the abstract PMT")
+		}
+		return
+	}
+	// a PMT read from a stream must stay what it is when other streams are read later
+	decoy := ref.PMTSpec{Program: 77, Version: 5, CurrentNext: true, PCRPID: 0x41,
+		Streams: []ref.ES{{Type: 0x02, PID: 0x41, Descs: []ref.Desc{{Tag: 10, Body: []byte("spa\x03")}, {Tag: 14, Body: []byte{0xC0, 0x00, 0x4D}}}}, {Type: 0x04, PID: 0x42, Descs: []ref.Desc{{Tag: 82, Body: []byte{9}}}}}}
+	for _, sizes := range [][]int{nil, {20, 30}} {
+		dp := parties.Packetise(ref.Payload(0, [][]byte{decoy.Section()}, 0), parties.Carrier{PID: s.Wire.Carrier.PID, Sizes: sizes, Styles: []string{"ff", "ff", "ff"}})
+		var dpm psi.PMT
+		var derr error
+		if !c.Call("psi.ReadPMT(decoy)", func() { dpm, derr = psi.ReadPMT(parties.NewSimReader(parties.Flatten(dp), nil, nil), s.Wire.Carrier.PID) }) {
+			return
+		}
+		if derr != nil {
+			c.Fail("read_stream", "stream:decoy_readpmt_error", derr, nil)
+			return
+		}
+		if d := comparePMT(c, dpm, decoy); d != "" {
+			if d != "panic" {
+				c.Fail("read_stream", "stream:decoy:"+clauseOf(d), d, "the decoy PMT")
+			}
+			return
+		}
+	}
+	c.Probe("held_pmt_rechecked")
+	if d := comparePMT(c, pm, s.PMT); d != "" {
+		if d != "panic" {
+			c.Fail("read_stream", "stream:held_pmt_changed:"+clauseOf(d), d, "the abstract PMT (unchanged by later reads)")
 		}
 		return
 	}
